@@ -1514,6 +1514,9 @@ class Interp:
             st.frame.vars[target.id] = v
             yield st, None
         elif isinstance(target, (ast.Tuple, ast.List)):
+            if v is None or isinstance(v, (bool, int, Fraction)) or (is_z3(v) and (z3.is_int(v) or z3.is_real(v) or z3.is_bool(v))):
+                yield st, Exc(ExcVal(BuiltinClass("TypeError", TypeError), ("cannot unpack non-iterable object",)))
+                return
             try:
                 items = self.iterate(v, st)
             except Unsupported:
